@@ -151,6 +151,40 @@ example : ∃ r, [(1, -1), (0, 1), (2, 1)] ∈ allOrnts3 ∧
       ([(1, -1), (0, 1), (2, 1)].map some) = .ok r ∧ [2, 1, 3, 1] ∈ allIdx r.shape := by
   refine ⟨_, by decide, rfl, by decide⟩
 
+/-- **reorient_bijective (injective part)**: two different voxels of the reoriented image never
+    come from the same source voxel, for all 48 orientations and all shapes -/
+theorem reorient_injective (n0 n1 n2 : Nat) (nr : List Nat) (o : Ornt) (ho : o ∈ allOrnts3)
+    (j j' : List Nat) (hj : j ∈ allIdx (applyOrntShape (n0 :: n1 :: n2 :: nr) o))
+    (hj' : j' ∈ allIdx (applyOrntShape (n0 :: n1 :: n2 :: nr) o))
+    (h : applyOrntSrc (n0 :: n1 :: n2 :: nr) o j = applyOrntSrc (n0 :: n1 :: n2 :: nr) o j') : j = j' := by
+  obtain ⟨a0, a1, a2, f0, f1, f2, rfl, hp, hf0, hf1, hf2⟩ := mem_allOrnts3_elim ho
+  obtain ⟨j0, j1, j2, jr, rfl, _, b0, b1, b2, hs⟩ := applyOrnt_char a0 a1 a2 f0 f1 f2 hp n0 n1 n2 nr j hj
+  obtain ⟨k0, k1, k2, kr, rfl, _, c0, c1, c2, hs'⟩ := applyOrnt_char a0 a1 a2 f0 f1 f2 hp n0 n1 n2 nr j' hj'
+  rw [hs, hs'] at h
+  simp only [List.cons.injEq] at h
+  obtain ⟨e0, e1, e2, er⟩ := h
+  have g0 := flipIdx_inj _ _ _ _ b0 c0 e0
+  have g1 := flipIdx_inj _ _ _ _ b1 c1 e1
+  have g2 := flipIdx_inj _ _ _ _ b2 c2 e2
+  subst er
+  simp only [perms3, List.mem_cons, List.cons.injEq, and_true, List.not_mem_nil, or_false] at hp
+  rcases hp with ⟨rfl, rfl, rfl⟩ | ⟨rfl, rfl, rfl⟩ | ⟨rfl, rfl, rfl⟩ | ⟨rfl, rfl, rfl⟩ | ⟨rfl, rfl, rfl⟩ |
+    ⟨rfl, rfl, rfl⟩ <;> simp at g0 g1 g2 <;> simp [g0, g1, g2]
+
+example : [(2, -1), (0, 1), (1, -1)] ∈ allOrnts3 ∧ [2, 3, 1] ∈ allIdx (applyOrntShape [2, 3, 4] [(2, -1), (0, 1), (1, -1)]) := by
+  decide
+
+/-- the reoriented image has as many voxels as the input -/
+theorem reorient_size (n0 n1 n2 : Nat) (nr : List Nat) (o : Ornt) (ho : o ∈ allOrnts3) :
+    ∃ m0 m1 m2, applyOrntShape (n0 :: n1 :: n2 :: nr) o = m0 :: m1 :: m2 :: nr ∧ m0 * m1 * m2 = n0 * n1 * n2 := by
+  obtain ⟨a0, a1, a2, f0, f1, f2, rfl, hp, -, -, -⟩ := mem_allOrnts3_elim ho
+  obtain ⟨h0, h1, h2, h3, h4, h5⟩ := argsort_perms3
+  simp only [perms3, List.mem_cons, List.cons.injEq, and_true, List.not_mem_nil, or_false] at hp
+  rcases hp with ⟨rfl, rfl, rfl⟩ | ⟨rfl, rfl, rfl⟩ | ⟨rfl, rfl, rfl⟩ | ⟨rfl, rfl, rfl⟩ | ⟨rfl, rfl, rfl⟩ |
+    ⟨rfl, rfl, rfl⟩ <;>
+  · refine ⟨_, _, _, by simp [applyOrntShape, h0, h1, h2, h3, h4, h5]; exact ⟨rfl, rfl, rfl⟩, ?_⟩
+    first | rfl | (simp only [Nat.mul_comm, Nat.mul_left_comm])
+
 /-- **dim_info_follows**: a frequency / phase / slice label on voxel axis `lab` of the input is on
     voxel axis `lab'` of the reoriented image, where `lab'` is an axis of the same length whose
     coordinate alone determines (identically or reversed) the source coordinate along `lab`. -/
